@@ -7,9 +7,15 @@ import LymuiVerif.Inst.Real
 floating-point arithmetic with gradual underflow* (Higham, Accuracy and Stability of Numerical
 Algorithms, §2.2): relative error at most `u = 2^-53` plus an absolute error `η = 2^-1075`,
 monotone, odd, exact on integers up to `2^53`.  IEEE-754 binary64 round-to-nearest-even is such
-an operator as long as no operation overflows (this is the assumption recorded in DESIGN.md; the
-theorems carry explicit magnitude bounds, all far below `1.8e308`); the identity is another, so
-the structure is inhabited and the exact-real reading is an instance of this one.
+an operator as long as no operation overflows: `Inst/Binary64.lean` DEFINES that rounding on ℝ
+(`B64.rne`: 53-bit significand, ties to even, gradual underflow, no overflow) and PROVES the four
+`rnd_*` fields for it (`FPModel.binary64`); `Inst/Binary64Q.lean` proves that the executable rational
+version `rneQ` (`Core/RneQ.lean`) computes the same function, and `./check` compares `rneQ` with the
+hardware `+ − × ÷` bit for bit on random operands (ties and subnormals included) on every run.
+What remains assumed: that the hardware implements IEEE-754 correct rounding on the inputs that
+are not sampled, absence of overflow (the theorems carry explicit magnitude bounds, all far below
+`1.8e308`), and the libm bounds below.  The identity is another model (`FPModel.exact`), so the
+exact-real reading is an instance of this one.
 
 The library functions that are not correctly rounded on the platform (`powf`, `atan2`, `sin`,
 `cos`) are fields with the error bound that glibc documents (1 ulp, i.e. `2u` relative);
@@ -48,6 +54,9 @@ structure FPModel where
   /-- `powf` of the platform libm, for a non-negative base -/
   pow : ℝ → ℝ → ℝ
   pow_err : ∀ x y, 0 ≤ x → |pow x y - x ^ y| ≤ 2 * FP.u * |x ^ y| + FP.eta
+  /-- a power of a non-negative base is never negative (every libm returns `+0` or a positive number; without this field the
+  error bound alone would allow `pow 0 y = -2^-1075`, whose square root is NaN — see DESIGN.md section 16) -/
+  pow_nonneg : ∀ x y, 0 ≤ x → 0 ≤ pow x y
   atan2 : ℝ → ℝ → ℝ
   atan2_err : ∀ y x, |atan2 y x - Complex.arg (⟨x, y⟩ : ℂ)| ≤ 2 * FP.u * |Complex.arg (⟨x, y⟩ : ℂ)| + FP.eta
   sin : ℝ → ℝ
@@ -64,6 +73,7 @@ noncomputable def FPModel.exact : FPModel where
   rnd_int _ _ := rfl
   pow x y := x ^ y
   pow_err x y _ := by simp; exact add_nonneg (mul_nonneg (by have := FP.u_pos; positivity) (abs_nonneg _)) FP.eta_pos.le
+  pow_nonneg x y hx := Real.rpow_nonneg hx y
   atan2 y x := Complex.arg (⟨x, y⟩ : ℂ)
   atan2_err y x := by simp; exact add_nonneg (mul_nonneg (by have := FP.u_pos; positivity) (abs_nonneg _)) FP.eta_pos.le
   sin := Real.sin
